@@ -245,7 +245,8 @@ def gammastd_yxt(
                 for ti in range(t):
                     if s[ti] == nodata:
                         continue
-                    s[ti] = s[ti] * 1000
+                    # saturate at the int16 range instead of wrapping
+                    s[ti] = min(max(s[ti] * 1000, -32768.0), 32767.0)
                 np.round(s, 0, s)
                 y[ri, ci, :] = s[:]
 
@@ -284,7 +285,8 @@ def gammastd_grp(xx, groups, num_groups, nodata, cal_indices, yy):
         res = gammastd(pix, nodata, cal_start, cal_stop)
         if (res != nodata).sum() > 0:
             valid_ix = res != nodata
-            res[valid_ix] = res[valid_ix] * 1000
+            # saturate at the int16 range instead of wrapping
+            res[valid_ix] = np.clip(res[valid_ix] * 1000, -32768.0, 32767.0)
             np.round(res, 0, res)
         yy[grp_ix] = res[:]
 
